@@ -122,6 +122,7 @@ func checkC13(p *Program, r *Report) {
 	}
 	r.Extra["value_preserving_conversions_skipped"] = nTrivial
 	c13Arith(p, r, g, fns)
+	c13Flags(p, r, fns)
 }
 
 func sizeofFloat(t types.Type) int {
@@ -367,4 +368,109 @@ func signBitFlip(bo *ssa.BinOp) bool {
 		}
 	}
 	return false
+}
+
+// c13Flags: the overflow flag (bool) of the exact-arithmetic helpers and the error of every
+// range-checked conversion helper must reach a decision - a branch condition, a return value or an
+// argument of an error constructor. A flag that is dropped or overwritten before it is examined
+// turns a detected overflow into a silently wrapped value.
+func c13Flags(p *Program, r *Report, fns []*ssa.Function) {
+	r.Floor("flag-examined", 130)
+	for _, fn := range fns {
+		counter := map[string]int{}
+		for _, b := range fn.Blocks {
+			for _, ins := range b.Instrs {
+				c, ok := ins.(*ssa.Call)
+				if !ok {
+					continue
+				}
+				callee := c.Call.StaticCallee()
+				if callee == nil || callee.Pkg == nil || shortPkg(callee.Pkg.Pkg) != "datacodec" {
+					continue
+				}
+				res := callee.Signature.Results()
+				n := res.Len()
+				if n < 2 {
+					continue
+				}
+				last := res.At(n - 1).Type()
+				isFlag := false
+				if exactHelpers[callee.Name()] {
+					if bt, ok := last.Underlying().(*types.Basic); ok && bt.Kind() == types.Bool {
+						isFlag = true
+					}
+				}
+				if !isFlag && !(isErrorType(last) && (isIntType(res.At(0).Type()) || isFloatType(res.At(0).Type()))) {
+					continue
+				}
+				counter[callee.Name()]++
+				key := fmt.Sprintf("%s -> %s#%d", fnKey(fn), callee.Name(), counter[callee.Name()])
+				var flag ssa.Value
+				for _, ref := range *c.Referrers() {
+					if ex, ok := ref.(*ssa.Extract); ok && ex.Index == n-1 {
+						flag = ex
+					}
+				}
+				what := "error"
+				if isFlag {
+					what = "overflow flag"
+				}
+				if flag == nil {
+					r.Fail("flag-examined", key, c.Pos(), "the %s of %s is discarded: a value outside the range is delivered wrapped", what, callee.Name())
+					continue
+				}
+				if reachesDecision(flag) {
+					r.OKf("flag-examined", key, c.Pos(), "the %s reaches a branch, a return or an error constructor", what)
+				} else {
+					r.Fail("flag-examined", key, c.Pos(), "the %s of %s is never examined (it is overwritten or dropped before any branch or return): a value outside the range is delivered wrapped", what, callee.Name())
+				}
+			}
+		}
+	}
+}
+
+func reachesDecision(v ssa.Value) bool {
+	seen := map[ssa.Value]bool{}
+	var walk func(v ssa.Value) bool
+	walk = func(v ssa.Value) bool {
+		if seen[v] {
+			return false
+		}
+		seen[v] = true
+		refs := v.Referrers()
+		if refs == nil {
+			return false
+		}
+		for _, ref := range *refs {
+			switch x := ref.(type) {
+			case *ssa.If, *ssa.Return:
+				return true
+			case *ssa.Call:
+				return true
+			case *ssa.Store:
+				if x.Val == v {
+					if a, ok := x.Addr.(*ssa.Alloc); ok {
+						for _, ar := range *a.Referrers() {
+							if ld, ok := ar.(*ssa.UnOp); ok && ld.Op == token.MUL {
+								if walk(ld) {
+									return true
+								}
+							}
+						}
+					} else {
+						return true // stored into a structure that outlives the function
+					}
+				}
+			case ssa.Value:
+				switch x.(type) {
+				case *ssa.Phi, *ssa.UnOp, *ssa.BinOp, *ssa.MakeInterface, *ssa.ChangeInterface, *ssa.ChangeType:
+					if walk(x) {
+						return true
+					}
+				}
+			}
+		}
+		return false
+	}
+	return walk(v)
 }
